@@ -1,25 +1,33 @@
 """C19 — File writes are all-or-nothing; interrupted runs resume to the same result.
 
 Stage P: Properties/C19.v (prefix / fault / failure theorems about the
-atomic-write program, resume theorems about apply_to).
-Stage C: every writer x target configuration is traced with a
-sys.addaudithook; the audited operation list must equal the model program and,
-for EVERY audited event k, the run is repeated with the process killed before
-event k and with OSError raised by event k; the resulting sandbox is compared
-with Model.AtomicWriteRun.  apply_to is killed after every number of processed
-records and resumed.
+atomic-write program for plain AND zip targets, the handler-class theorem,
+resume theorems about apply_to with not-completed records).
+Stage C: every writer x target (plain / gz / zip / explicit archive) x
+{destination exists, absent} is traced with a sys.addaudithook; the audited
+operation list must equal the model program and, for EVERY audited event k, the
+run is repeated with the process killed before event k and with an exception of
+each class in {OSError, ValueError, AttributeError, KeyboardInterrupt} raised by
+event k; real failure scenarios (formatting failures before / after the first
+byte, invalid file mode) on every writer; the resulting sandbox is compared with
+Model.AtomicWriteRun.  The except-clauses of atomic_write are read from the
+source text (fail-closed) and handed to the model.  apply_to is killed after
+every number of processed records, for every subset of failing inputs, both store
+types, both first-run modes, default and user id function, and resumed.
 Stage S: the oracle is the property text itself (dest in {old,new}; no
 leftovers after a handled failure; resumed store = uninterrupted store)."""
 from __future__ import annotations
 
+import ast
 import concurrent.futures as cf
 import gzip
+import io
+import itertools
 import json
 import os
 import random
-import shutil
 import subprocess
-import tempfile
+import zipfile
 
 from vcheck import core
 from vcheck.val import cbool, jsonable, zlist, zlit
@@ -29,132 +37,198 @@ COQ_TARGETS = ["theories/Model/AtomicWriteRun.vo"]
 CHILD = str(core.VERIF / "harness/props/c19_child.py")
 RCHILD = str(core.VERIF / "harness/props/c19_resume_child.py")
 OLD = b"OLD"
+CLASSES = ["OSError", "ValueError", "AttributeError", "KeyboardInterrupt"]
+EXC_CODE = {"OSError": 0, "ValueError": 1, "AttributeError": 2, "RuntimeError": 3, "KeyboardInterrupt": 4, None: 0}
+SAMPLE_FAULTS = True
+CASE_T = "Z * bool * Z * Z * Z * (list Z * list Z)"
+
+
+# ------------------------------------------------------------------ the handler set, read from the source (fail-closed)
+
+HBASE = {"BaseException": 0, "Exception": 1, "OSError": 2, "IOError": 2, "EnvironmentError": 2, "FileNotFoundError": 2,
+         "PermissionError": 2, "ValueError": 3, "AttributeError": 4}
+
+
+def read_handlers():
+    """(enter clause, exit clause, commit kind, zip commit kind) of cogent3.util.io.atomic_write, from the source text.
+    Anything that is not the recognised shape raises CheckError (no guessing)."""
+    path = os.path.join(str(core.REPO), "src", "cogent3", "util", "io.py")
+    tree = ast.parse(open(path).read())
+    cls = [n for n in tree.body if isinstance(n, ast.ClassDef) and n.name == "atomic_write"]
+    if len(cls) != 1:
+        raise core.CheckError("C19 source reader: class atomic_write not found in util/io.py")
+    meth = {n.name: n for n in cls[0].body if isinstance(n, ast.FunctionDef)}
+
+    def clause(name):
+        if name not in meth:
+            raise core.CheckError(f"C19 source reader: atomic_write.{name} not found")
+        tries = [n for n in ast.walk(meth[name]) if isinstance(n, ast.Try)]
+        if len(tries) != 1 or len(tries[0].handlers) != 1 or tries[0].finalbody:
+            raise core.CheckError(f"C19 source reader: atomic_write.{name} is not 'one try with one except-clause'")
+        h = tries[0].handlers[0]
+        calls = [ast.unparse(c.func) for c in ast.walk(ast.Module(body=h.body, type_ignores=[])) if isinstance(c, ast.Call)]
+        if "shutil.rmtree" not in calls or not any(isinstance(s, ast.Raise) and s.exc is None for s in h.body):
+            raise core.CheckError(f"C19 source reader: the except-clause of atomic_write.{name} is not 'rmtree; raise'")
+        if h.type is None:
+            names = ["BaseException"]
+        elif isinstance(h.type, ast.Name):
+            names = [h.type.id]
+        elif isinstance(h.type, ast.Tuple) and all(isinstance(e, ast.Name) for e in h.type.elts):
+            names = [e.id for e in h.type.elts]
+        else:
+            raise core.CheckError(f"C19 source reader: cannot read the exception classes of atomic_write.{name}")
+        return [HBASE.get(n, 5) for n in names], names
+
+    # how an archive is committed: appended to where it is, or staged and moved into place
+    if "_close_rename_zip" not in meth:
+        raise core.CheckError("C19 source reader: atomic_write._close_rename_zip not found")
+    ztext = ast.unparse(meth["_close_rename_zip"])
+    if "replace(self._in_zip)" in ztext:
+        zipcommit = "staged"
+    elif "ZipFile(self._in_zip, 'a')" in ztext:
+        zipcommit = "append"
+    else:
+        raise core.CheckError("C19 source reader: cannot tell how atomic_write._close_rename_zip commits the archive")
+    enter, enter_names = clause("_get_fileobj")
+    exit_, exit_names = clause("__exit__")
+    return dict(enter=enter, exit=exit_, enter_names=enter_names, exit_names=exit_names, path=path, zipcommit=zipcommit)
 
 
 # ------------------------------------------------------------------ scenarios
 
+def S(writer, dest, old, **kw):
+    return dict(writer=writer, dest=dest, old=old, **kw)
+
+
 def scenarios(tier):
-    sc = []
+    """(scenario, primary?) — primary scenarios are enumerated exhaustively in both tiers; secondary ones are
+    enumerated exhaustively in the thorough tier and with sampled kill points / rotating exception classes in quick"""
+    prim, sec = [], []
     for old in (True, False):
-        sc += [
-            dict(writer="aln", dest="x.fasta", old=old),
-            dict(writer="aln", dest="x.fasta", old=old, fail=True),
-            dict(writer="table", dest="t.tsv", old=old),
-            dict(writer="table", dest="t.tsv", old=old, fail=True),
-            dict(writer="atomic", dest="z.txt", old=old),
-            dict(writer="atomic", dest="z.txt", old=old, fail=True),
+        prim += [
+            S("aln", "x.fasta", old), S("aln", "x.fasta", old, fail=True),
+            S("table", "t.tsv", old), S("table", "t.tsv", old, fail=True), S("table", "t.tsv", old, fail="badmode"),
+            S("atomic", "z.txt", old), S("atomic", "z.txt", old, fail=True), S("atomic", "z.txt", old, fail="early"),
+            # zip targets: a `.zip` destination (single member archive) and an explicit archive
+            S("atomic", "z.txt.zip", old), S("atomic", "z.txt.zip", old, fail=True), S("atomic", "z.txt.zip", old, fail="early"),
+            S("dictarray", "d.tsv.zip", old),
+            S("atomic", "z.txt", old, in_zip="arch.zip"),
+            S("seqs", "s.phylip.zip", old, fail=True),
         ]
         if old:
             # configuration dimension: a destination without the owner-write bit (replace must still be one step)
-            sc += [
-                dict(writer="aln", dest="x.fasta", old=True, ro=True),
-                dict(writer="table", dest="t.tsv", old=True, ro=True),
-                dict(writer="atomic", dest="z.txt", old=True, ro=True),
-            ]
-        if tier == "thorough" or old:
-            sc += [
-                dict(writer="aln", dest="x.phylip", old=old, array=True),
-                dict(writer="aln", dest="x.fasta", old=old, new_type=True),
-                dict(writer="aln", dest="x.json", old=old),
-                dict(writer="aln", dest="x.fasta.gz", old=old),
-                dict(writer="seqs", dest="s.fasta", old=old),
-                dict(writer="seqs", dest="s.phylip", old=old, fail=True) if False else dict(writer="seqs", dest="s.fasta", old=old, new_type=True),
-                dict(writer="tree", dest="t.nwk", old=old),
-                dict(writer="tree", dest="t.json", old=old),
-                dict(writer="table", dest="t.csv", old=old),
-                dict(writer="table", dest="t.tsv.gz", old=old),
-                dict(writer="table", dest="t.json", old=old),
-                dict(writer="table", dest="t.pickle", old=old),
-                dict(writer="dictarray", dest="d.tsv", old=old),
-                dict(writer="treecoll", dest="c.trees", old=old),
-                dict(writer="treecoll", dest="c.trees", old=old, fail=True),
-            ]
-    return sc
+            prim += [S("aln", "x.fasta", True, ro=True), S("table", "t.tsv", True, ro=True), S("atomic", "z.txt", True, ro=True)]
+        sec_here = [
+            S("aln", "x.phylip", old, array=True), S("aln", "x.fasta", old, new_type=True), S("aln", "x.json", old),
+            S("aln", "x.fasta.gz", old), S("aln", "x.fasta.gz", old, fail=True),
+            S("aln", "x.json.zip", old), S("aln", "x.fasta.zip", old, xraise=True), S("aln", "x.fasta.zip", old, fail=True),
+            S("seqs", "s.fasta", old), S("seqs", "s.fasta", old, new_type=True),
+            S("seqs", "s.phylip", old, fail=True), S("seqs", "s.phylip.gz", old, fail=True),
+            S("tree", "t.nwk", old), S("tree", "t.json", old), S("tree", "t.nwk", old, fail=True), S("tree", "t.nwk.gz", old, fail=True),
+            S("tree", "t.nwk.zip", old, xraise=True), S("tree", "t.json.zip", old),
+            S("table", "t.csv", old), S("table", "t.tsv.gz", old), S("table", "t.json", old), S("table", "t.pickle", old),
+            S("table", "t.tsv.gz", old, fail=True), S("table", "t.json.zip", old), S("atomic", "z.txt.gz", old, fail="badmode"),
+            S("dictarray", "d.tsv", old), S("dictarray", "d.tsv.gz", old), S("dictarray", "d.tsv", old, fail=True),
+            S("treecoll", "c.trees", old), S("treecoll", "c.trees", old, fail=True), S("treecoll", "c.trees.gz", old, fail=True),
+            S("treecoll", "c.trees.zip", old, xraise=True),
+            S("atomic", "z.txt.zip", old, fail="badmode"),
+        ]
+        if tier == "thorough":
+            sec += sec_here
+        else:
+            # quick: every scenario class once, the destination state alternating along the list
+            sec += [s for i, s in enumerate(sec_here) if (i % 2 == 0) == old]
+    return [(s, True) for s in prim] + [(s, False) for s in sec]
 
 
 def sc_name(sc):
-    return f"{sc['writer']}:{sc['dest']}:{'old' if sc['old'] else 'absent'}:{'fail' if sc.get('fail') else 'ok'}" + \
-        (":new_type" if sc.get("new_type") else "") + (":array" if sc.get("array") else "") + (":ro" if sc.get("ro") else "")
+    return f"{sc['writer']}:{sc['dest']}:{'old' if sc['old'] else 'absent'}:{sc.get('fail') or 'ok'}" + \
+        "".join(f":{t}" for t in ("new_type", "array", "ro", "xraise") if sc.get(t)) + (f":in_zip={sc['in_zip']}" if sc.get("in_zip") else "")
 
 
-def run_child(sc, mode, k=-1):
-    """returns dict(rc, events, outcome, dest: bytes|None, leftovers: [names])"""
-    sb = tempfile.mkdtemp(prefix="c19_")
+def dest_name(sc):
+    return sc.get("in_zip") or sc["dest"]
+
+
+def is_zip(sc):
+    return dest_name(sc).endswith(".zip")
+
+
+def writer_tag(sc):
+    return sc["writer"] + ("-inzip" if sc.get("in_zip") else "-zip" if is_zip(sc) else "")
+
+
+def fail_tag(sc):
+    f = sc.get("fail")
+    return "ok" if not f else ("fail" if f is True else f"fail-{f}")
+
+
+def run_server(sc, primary, tier, jobs=None):
+    """all executions of one scenario (forked inside ONE interpreter): list of result dicts, trace first"""
+    cfg = dict(scenario=sc, classes=CLASSES)
+    if jobs is not None:
+        cfg["jobs"] = jobs
+    elif tier == "quick" and not primary:
+        cfg.update(kills="sample", faults="sample" if SAMPLE_FAULTS else "all")
+    r = subprocess.run([core.PY, CHILD, json.dumps(cfg)], capture_output=True, text=True, env=core.impl_env(), timeout=1500)
+    if r.returncode != 0:
+        raise core.CheckError(f"c19_child failed rc={r.returncode} on {sc_name(sc)}: {r.stderr[-1500:]}")
+    out = []
+    for line in r.stdout.strip().split("\n"):
+        d = json.loads(line)
+        d["dest"] = None if d["dest"] is None else d["dest"].encode("latin1")
+        if d["rc"] not in (0, 77):
+            raise core.CheckError(f"c19_child execution failed rc={d['rc']} on {sc_name(sc)} {d['mode']} {d['k']}")
+        out.append(d)
+    return out
+
+
+def zip_members(content):
     try:
-        dest = os.path.join(sb, sc["dest"])
-        if sc["old"]:
-            with open(dest, "wb") as f:
-                f.write(OLD)
-            if sc.get("ro"):
-                os.chmod(dest, 0o444)
-        try:
-            r = subprocess.run([core.PY, CHILD, json.dumps(dict(sandbox=sb, scenario=sc, mode=mode, k=k))],
-                               capture_output=True, text=True, env=core.impl_env(), timeout=180)
-            rc, out, err = r.returncode, r.stdout, r.stderr
-        except subprocess.TimeoutExpired:
-            rc, out, err = 124, "", "timeout"
-        events, outcome = None, None
-        if rc == 0:
-            try:
-                d = json.loads(out.strip().split("\n")[-1])
-                events, outcome = d["events"], d["outcome"]
-            except (json.JSONDecodeError, IndexError):
-                raise core.CheckError(f"c19_child printed garbage: {out[-300:]} {err[-600:]}")
-        elif rc != 77:
-            raise core.CheckError(f"c19_child failed rc={rc}: {err[-1500:]}")
-        content = None
-        if os.path.exists(dest):
-            with open(dest, "rb") as f:
-                content = f.read()
-        left = sorted(n for n in os.listdir(sb) if n != sc["dest"])
-        return dict(rc=rc, events=events, outcome=outcome, dest=content, leftovers=left, sandbox=sb)
-    finally:
-        shutil.rmtree(sb, ignore_errors=True)
-
-
-def norm(content, destname):
-    if content is None:
+        with zipfile.ZipFile(io.BytesIO(content)) as z:
+            return [z.read(i) for i in z.infolist()]
+    except Exception:  # noqa: BLE001
         return None
-    if destname.endswith(".gz"):
+
+
+def new_ref(trace, sc):
+    """the content a completed write produced (the trace run), None when the trace did not complete"""
+    if trace["outcome"] != "ok" or trace["dest"] is None:
+        return None
+    if is_zip(sc):
+        ms = zip_members(trace["dest"])
+        return ms[-1] if ms else None
+    if dest_name(sc).endswith(".gz"):
         try:
-            return gzip.decompress(content)
+            return gzip.decompress(trace["dest"])
         except Exception:  # noqa: BLE001
-            return b"<corrupt gz>" + content[:20]
-    return content
+            return None
+    return trace["dest"]
 
 
-def event_codes(events, sb):
-    """audit events -> model op codes (1 mkdtemp, 2 open tmp file, 5 remove dest, 6 rename/replace to dest, 7 rmtree, 9 unexpected)"""
-    codes, tmpdir = [], None
-    for e in events:
-        ev, paths = e["event"], e["paths"]
-        if ev == "tempfile.mkdtemp":
-            tmpdir = paths[0]
-            codes.append(1)
-        elif ev == "open":
-            if tmpdir and paths[0] == tmpdir:
-                codes.append(0)  # rmtree's own directory scan: part of the enclosing rmtree
-            elif tmpdir and paths[0].startswith(tmpdir + os.sep):
-                codes.append(2)
-            else:
-                codes.append(9)
-        elif ev == "os.remove":
-            codes.append(5 if (tmpdir is None or not paths[0].startswith(tmpdir + os.sep)) else 0)
-        elif ev == "os.rename":
-            codes.append(6)
-        elif ev == "shutil.rmtree":
-            codes.append(7)
-        else:
-            codes.append(9)
-    return codes
-
-
-def dest_code(content, new, destname):
+def dest_code(content, new, sc):
+    """0 absent, 1 the previous content, 2 exactly the new content, 3 anything else"""
+    if content is None:
+        return 0
+    if is_zip(sc):
+        ms = zip_members(content)
+        if ms is None:
+            return 3   # exists but is not an archive
+        oldm = [OLD] if sc["old"] else None
+        if oldm is not None and ms == oldm:
+            return 1
+        base = oldm if (sc.get("in_zip") and oldm) else []   # an explicit archive keeps its other members
+        if len(ms) == len(base) + 1 and ms[:-1] == base and ms[-1] != OLD and new is not None and ms[-1] == new:
+            return 2
+        return 3
     if content == OLD:
         return 1
-    c = norm(content, destname)
-    if c is None:
-        return 0
+    c = content
+    if dest_name(sc).endswith(".gz"):
+        try:
+            c = gzip.decompress(content)
+        except Exception:  # noqa: BLE001
+            return 3
     if c == OLD:
         return 1
     if new is not None and c == new:
@@ -162,106 +236,291 @@ def dest_code(content, new, destname):
     return 3
 
 
+def event_codes(events, sc):
+    """audit events -> model op codes: 1 mkdtemp, 11 inner mkdtemp, 2 open staged file (12 inside the inner directory),
+    13/14 open(temporary archive, r+ / w+), 23/24 open(destination archive, r+ / w+), 15 staged file opened for reading,
+    5 remove dest, 6 rename/replace to dest, 7 rmtree (17 of the inner directory), 0 rmtree's own directory scan, 9 unexpected"""
+    codes, outer, inner = [], None, None
+    dn = dest_name(sc)
+    for e in events:
+        ev, p = e["event"], e["paths"][0]
+        if ev == "tempfile.mkdtemp":
+            if outer is None:
+                outer = p
+                codes.append(1)
+            elif p.startswith(outer + os.sep) and inner is None:
+                inner = p
+                codes.append(11)
+            else:
+                codes.append(9)
+        elif ev == "open":
+            m = e.get("mode", "")
+            if p in (outer, inner):
+                codes.append(0)
+            elif inner and p.startswith(inner + os.sep):
+                codes.append(12 if m.startswith("w") else 15 if m.startswith("r") else 9)
+            elif outer and p.startswith(outer + os.sep):
+                if inner is not None and p.endswith(".zip"):
+                    codes.append(13 if m == "r+" else 14 if m in ("w+", "w") else 9)
+                else:
+                    codes.append(2 if m.startswith("w") else 15 if m == "r" else 9)
+            elif p == dn and dn.endswith(".zip"):
+                codes.append(23 if m == "r+" else 24 if m in ("w+", "w") else 9)
+            else:
+                codes.append(9)
+        elif ev == "os.remove":
+            codes.append(0 if (outer and p.startswith(outer + os.sep)) else 5)
+        elif ev == "os.rename":
+            codes.append(6)
+        elif ev == "shutil.rmtree":
+            codes.append(17 if p == inner else 7 if p == outer else 9)
+        else:
+            codes.append(9)
+    return codes
+
+
+def shape_of(sc, trace, H):
+    """which model program describes the scenario (None: compared with the property-text oracle only)"""
+    f = sc.get("fail")
+    if is_zip(sc):
+        if f or trace["outcome"] != "ok" or H["zipcommit"] != "append":
+            return None
+        return 3 if sc.get("in_zip") else 2
+    if sc["writer"] == "dictarray" and f:
+        return None    # fails before atomic_write is entered
+    if f == "badmode":
+        return 5
+    if f == "early":
+        return 4
+    return 1 if f else 0
+
+
+def coq_case(shape, sc, mode, k, exc, H):
+    return f"({shape}, {cbool(sc['old'])}, {mode}, {k}, {EXC_CODE[exc]}, ({zlist(H['enter'])}, {zlist(H['exit'])}))"
+
+
 # ------------------------------------------------------------------ part A
 
-def part_a(rep, tier):
-    """returns (cases for the model, observations, bookkeeping)"""
+def part_a(tier):
     scs = scenarios(tier)
-    jobs = []  # (sc, mode, k)
-    traces = {}
     with cf.ThreadPoolExecutor(max_workers=core.NPROC) as ex:
-        tr = list(ex.map(lambda sc: run_child(sc, "trace"), scs))
-    for sc, t in zip(scs, tr):
-        traces[sc_name(sc)] = t
-        n = len(t["events"])
-        for k in range(n + 1):
-            jobs.append((sc, "kill", k))
-        for k in range(n):
-            jobs.append((sc, "fault", k))
-    with cf.ThreadPoolExecutor(max_workers=core.NPROC) as ex:
-        res = list(ex.map(lambda j: run_child(j[0], j[1], j[2]), jobs))
-    return scs, traces, jobs, res
+        res = list(ex.map(lambda sp: run_server(sp[0], sp[1], tier), scs))
+    return scs, res
 
 
-def model_cases_a(scs, traces, jobs):
-    cases, index = [], []
-    for sc in scs:
-        cases.append(f"({cbool(bool(sc.get('fail')))}, {cbool(sc['old'])}, 0, 0)")
-        index.append(("trace", sc, None))
-    for sc, mode, k in jobs:
-        # k counts audit events incl. rmtree's internal directory open (code 0): translate to the model's audited index
-        codes = event_codes(traces[sc_name(sc)]["events"], None)
-        km = sum(1 for c in codes[:k] if c != 0)
-        internal = k < len(codes) and codes[k] == 0
-        cases.append(f"({cbool(bool(sc.get('fail')))}, {cbool(sc['old'])}, {1 if mode == 'kill' else 2}, {km})")
-        index.append((mode, sc, dict(k=k, km=km, internal=internal)))
-    return cases, index
+def check_part_a(rep, scs, res, H, pr, disagreements, samples, nontrivial, dist):
+    # ---- model cases
+    cases, where = [], {}
+    for si, ((sc, _), runs) in enumerate(zip(scs, res)):
+        trace = runs[0]
+        shape = shape_of(sc, trace, H)
+        if shape is None:
+            continue
+        codes = event_codes(trace["events"], sc)
+        for ri, r in enumerate(runs):
+            if r["mode"] == "trace":
+                where[(si, ri)] = len(cases)
+                cases.append(coq_case(shape, sc, 0, 0, "ValueError" if shape == 5 else None, H))
+                continue
+            if shape == 5 or (shape in (2, 3) and r["mode"] == "fault"):
+                continue
+            k = r["k"]
+            if k < len(codes) and codes[k] == 0 and r["mode"] == "fault":
+                continue    # inside rmtree's own scan: part of the enclosing rmtree
+            km = sum(1 for c in codes[:k] if c != 0)
+            where[(si, ri)] = len(cases)
+            cases.append(coq_case(shape, sc, 1 if r["mode"] == "kill" else 2, km, r["exc"], H))
+    model = None
+    try:
+        model = core.coq_eval(PROP, ["Model.AtomicWrite", "Model.AtomicWriteRun"], "run_case", cases, CASE_T, shard=400)
+        cov = core.coq_eval(PROP, ["Model.AtomicWrite", "Model.AtomicWriteRun"], "run_covers",
+                            [f"({zlist(H['enter'])}, {zlist(H['exit'])})"], "list Z * list Z", tag="h")[0]
+    except core.CheckError as e:
+        if not pr["problems"]:
+            raise
+        rep.notes.append("model not runnable: " + str(e)[:200])
+        cov = None
+    n_eval = 0
+    for si, ((sc, primary), runs) in enumerate(zip(scs, res)):
+        name = sc_name(sc)
+        trace = runs[0]
+        new = new_ref(trace, sc)
+        codes_all = event_codes(trace["events"], sc)
+        completes = trace["outcome"] == "ok"
+        old_code = 1 if sc["old"] else 0
+        wt, ft = writer_tag(sc), fail_tag(sc)
+        dist[("zip" if is_zip(sc) else "gz" if dest_name(sc).endswith(".gz") else "plain") + ":" + ("fail" if not completes else "ok")] += 1
+        for ri, r in enumerate(runs):
+            n_eval += 1
+            dc = dest_code(r["dest"], new, sc)
+            left = bool(r["leftovers"])
+            m = model[where[(si, ri)]] if (model is not None and (si, ri) in where) else None
+            if r["mode"] == "trace":
+                codes = [c for c in codes_all if c != 0]
+                if sc.get("fail") and completes:
+                    raise core.CheckError(f"scenario {name} was meant to fail but succeeded")
+                if not completes and not sc.get("fail") and not sc.get("xraise"):
+                    rep.violation(f"write-raised:{wt}", dict(scenario=sc, outcome=trace["outcome"], broken="a plain write raised"))
+                    continue
+                # oracle (property text): completion => exactly the new content, nothing else;
+                # handled failure => the previous state, nothing else
+                expect = 2 if completes else old_code
+                if dc != expect or left:
+                    rep.violation(f"complete:{wt}:{ft}:dest{dc}:left{int(left)}",
+                                  dict(scenario=sc, mode="trace", expected_by_spec=dict(dest=expect, leftovers=[]),
+                                       observed_impl=dict(dest=dc, dest_bytes=repr(r["dest"])[:80], leftovers=r["leftovers"], outcome=r["outcome"],
+                                                          archive_members=repr(zip_members(r["dest"]))[:200] if is_zip(sc) and r["dest"] else None),
+                                       events=codes, broken="after a completed / handled-failed write the sandbox is not {new | old} with nothing else"))
+                elif m is not None:
+                    m_codes, m_obs = m[0], m[1]
+                    if (shape_of(sc, trace, H) != 5 and codes != m_codes) or [dc, left] != m_obs:
+                        disagreements.append(dict(key=f"trace:{wt}", scenario=sc, observed_impl=dict(events=codes, dest=dc, leftovers=left),
+                                                  model_output=jsonable(m)))
+                if len(samples) < 3 and (is_zip(sc) or len(samples) < 1):
+                    samples.append(dict(scenario=sc, audited_events=codes, dest_code=dc, leftovers=r["leftovers"]))
+                continue
+            mode, k, exc = r["mode"], r["k"], r["exc"]
+            nontrivial.add((name, mode, k, exc))
+            opcode = codes_all[k] if k < len(codes_all) else -1
+            allowed = {old_code} | ({2} if completes else set())
+            if mode == "fault" and r["outcome"] == "ok":
+                allowed = {2}      # the fault was absorbed: the write reports success, so it must be complete
+            bad_dest = dc not in allowed
+            # a handled failure (any Exception; KeyboardInterrupt is not one) leaves nothing temporary, as far as the
+            # handlers can reach: an exception raised by the cleanup's own rmtree is beyond them
+            bad_left = mode == "fault" and left and exc != "KeyboardInterrupt" and opcode not in (7, 17, 0)
+            bad_left = bad_left or (mode == "fault" and r["outcome"] == "ok" and left)
+            if bad_dest or bad_left:
+                what = "dest" if bad_dest else "leftover"
+                if sc.get("in_zip") and bad_dest:
+                    key = f"inzip:{mode}:archive-neither-previous-nor-new"
+                else:
+                    key = f"{mode}:{what}:{wt}:{ft}:before-op{opcode}:dest{dc}" + (f":{exc}" if exc not in (None, "OSError") else "")
+                rep.violation(key,
+                              dict(scenario=sc, mode=mode, k=k, exc=exc, audited_events=codes_all,
+                                   expected_by_spec=dict(dest_in=sorted(allowed), leftovers="none after a handled failure"),
+                                   observed_impl=dict(dest=dc, dest_bytes=repr(r["dest"])[:80], leftovers=r["leftovers"], outcome=r["outcome"],
+                                                      archive_members=repr(zip_members(r["dest"]))[:200] if is_zip(sc) and r["dest"] else None),
+                                   model_output=jsonable(m) if m is not None else None,
+                                   broken="destination is neither the previous nor the new content" if bad_dest else
+                                          "a handled failure left temporary files behind"))
+            elif m is not None and [dc, left] != m:
+                disagreements.append(dict(key=f"{mode}:{wt}", scenario=sc, mode=mode, k=k, exc=exc,
+                                          observed_impl=dict(dest=dc, leftovers=r["leftovers"]), model_output=jsonable(m)))
+            if len(samples) < 6 and mode == "kill" and k == 4 and is_zip(sc):
+                samples.append(dict(scenario=sc, mode=mode, k=k, dest_code=dc, leftovers=r["leftovers"]))
+    # the except-clauses read from the source must cover every handled class (the premise of handled_failure_no_temp_any_class)
+    if cov is False:
+        rep.violation("handlers:do-not-cover-every-exception", dict(
+            handlers=dict(_get_fileobj=H["enter_names"], __exit__=H["exit_names"]), source=H["path"],
+            expected_by_spec="both cleanup clauses of atomic_write catch every Exception",
+            broken="premise covers_handled of theorem handled_failure_no_temp_any_class is false for the clauses in the source"),
+            no_input=not rep.violations)
+    return n_eval, len(cases)
 
 
 # ------------------------------------------------------------------ part B (resume)
 
-def make_inputs(d, n, idfn=False):
-    os.makedirs(d)
-    for i in range(n):
-        with open(os.path.join(d, f"s{i:02d}{'_raw' if idfn else ''}.fasta"), "w") as f:
-            f.write(f">a\nACGT{'A' * i}\n>b\nGGCC{'T' * i}\n")
+def resume_jobs(tier, rng):
+    jobs = []
+    ns = [3] if tier == "quick" else [3, 4]
+    for n in ns:
+        for k in range(n + 1):
+            for r in range(n + 1):
+                for bad in itertools.combinations(range(n), r):
+                    for mode1 in ("a", "w"):
+                        for store in ("dir", "sqlite"):
+                            for idfn in (False, True):
+                                if tier == "quick" and n == 3 and idfn and store == "sqlite" and mode1 == "w" and len(bad) > 1:
+                                    continue
+                                jobs.append(dict(n=n, k=k, bad=list(bad), mode1=mode1, store=store, idfn=idfn))
+    # a store that already holds records of an earlier run
+    for n in ns:
+        for store in ("dir", "sqlite"):
+            jobs.append(dict(n=n + 1, k=rng.randrange(0, n), bad=[], mode1="a", store=store, idfn=False, pre=1))
+            jobs.append(dict(n=n + 1, k=rng.randrange(1, n), bad=[1], mode1="a", store=store, idfn=False, pre=2))
+    return jobs
 
 
-def snapshot_store(path):
-    snap = {}
-    for root, _, files in os.walk(path):
-        for fn in files:
-            p = os.path.join(root, fn)
-            rel = os.path.relpath(p, path)
-            if rel.startswith("logs"):
-                continue
-            with open(p, "rb") as f:
-                snap[rel] = f.read().decode("latin1")
-    return snap
+def run_resume_jobs(jobs):
+    nsh = max(1, min(core.NPROC, len(jobs) // 4 or 1))
+    shards = [jobs[i::nsh] for i in range(nsh)]
+
+    def one(sh):
+        r = subprocess.run([core.PY, RCHILD, json.dumps(dict(jobs=sh))], capture_output=True, text=True, env=core.impl_env(), timeout=2400)
+        if r.returncode != 0:
+            raise core.CheckError(f"c19_resume_child failed rc={r.returncode}: {r.stderr[-1500:]}")
+        return [json.loads(line) for line in r.stdout.strip().split("\n")]
+
+    with cf.ThreadPoolExecutor(max_workers=nsh) as ex:
+        parts = list(ex.map(one, shards))
+    out = [None] * len(jobs)
+    for i, p in enumerate(parts):
+        for j, r in enumerate(p):
+            out[i + j * nsh] = r
+    return out
 
 
-def run_resume_case(n, k, bad, pre, idfn=False):
-    """returns dict(processed_resume, final, uninterrupted)"""
-    base = tempfile.mkdtemp(prefix="c19r_")
+def rid(name):
+    """record / input name -> input number: 's03.fasta', 's03', 'not_completed/s03.json' -> 3"""
+    b = os.path.basename(name)
+    return int(b[1:3])
+
+
+def resume_key(job, what):
+    # coarse: what went wrong x were there failing inputs x store type (+ user id function when nothing else is special)
+    return f"resume:{what}:{'bad' if job.get('bad') else 'ok'}:{job.get('store', 'dir')}" + \
+        (":idfn" if job.get("idfn") and not job.get("bad") else "")
+
+
+def check_resume(rep, jobs, rres, pr, disagreements, samples, nontrivial):
+    rcases, ridx = [], {}
+    for j, (job, r) in enumerate(zip(jobs, rres)):
+        if r.get("machinery_error"):
+            raise core.CheckError("resume machinery: " + r["machinery_error"])
+        if not job.get("pre"):
+            order = [rid(x) for x in r["order"]]
+            ridx[j] = len(rcases)
+            rcases.append(f"({zlist(order)}, {zlist(job['bad'])}, {zlit(job['k'])})")
+    rmodel = None
     try:
-        ind = os.path.join(base, "in")
-        make_inputs(ind, n, idfn)
-
-        errs = []
-
-        def call(outdir, kill_at, log):
-            cfg = dict(indir=ind, outdir=outdir, kill_at=kill_at, log=log, bad=bad, idfn=idfn)
-            r = subprocess.run([core.PY, RCHILD, json.dumps(cfg)], capture_output=True, text=True, env=core.impl_env(), timeout=300)
-            if r.returncode not in (0, 77):
-                if log.endswith("out2.log"):
-                    # the RESUMED run raised: an observation about the code, not a machinery failure
-                    errs.append(r.stderr[-1200:])
-                    return r.returncode
-                raise core.CheckError(f"c19_resume_child failed rc={r.returncode}: {r.stderr[-1500:]}")
-            return r.returncode
-
-        # uninterrupted reference
-        ref = os.path.join(base, "ref")
-        if pre:
-            # a store that already holds some completed records (an earlier partial run)
-            call(ref, len(pre), os.path.join(base, "ref0.log"))
-        call(ref, -1, os.path.join(base, "ref.log"))
-        # interrupted + resumed
-        out = os.path.join(base, "out")
-        if pre:
-            call(out, len(pre), os.path.join(base, "out0.log"))
-        rc = call(out, k, os.path.join(base, "out1.log"))
-        after_kill = snapshot_store(out)
-        call(out, -1, os.path.join(base, "out2.log"))
-        logp = os.path.join(base, "out2.log")
-        processed = open(logp).read().split() if os.path.exists(logp) else []
-        order = [int(x[1:3]) for x in open(os.path.join(base, "ref.log")).read().split()]
-        if pre:
-            order = [int(x[1:3]) for x in open(os.path.join(base, "ref0.log")).read().split()] + order
-        return dict(killed=(rc == 77), after_kill=sorted(after_kill), processed_resume=processed, order=order,
-                    final=snapshot_store(out), uninterrupted=snapshot_store(ref), resume_error=(errs[0] if errs else None))
-    finally:
-        shutil.rmtree(base, ignore_errors=True)
+        rmodel = core.coq_eval(PROP, ["Model.AtomicWrite", "Model.AtomicWriteRun"], "run_resume_nc", rcases, "list Z * list Z * Z", tag="r")
+    except core.CheckError:
+        if not pr["problems"]:
+            raise
+    n_eval = 0
+    for j, (job, r) in enumerate(zip(jobs, rres)):
+        n_eval += 1
+        n = job["n"]
+        nontrivial.add(("resume", json.dumps(job, sort_keys=True)))
+        if r.get("resume_error"):
+            rep.violation(resume_key(job, "raised"),
+                          dict(resume_job=job, expected_by_spec="the resumed run completes", observed_impl=r["resume_error"],
+                               broken="re-running apply_to on the interrupted store raised"))
+            continue
+        if r["final"] != r["uninterrupted"]:
+            diff = sorted(set(r["final"].items()) ^ set(r["uninterrupted"].items()))[:4]
+            rep.violation(resume_key(job, "store-differs"),
+                          dict(resume_job=job, expected_by_spec="store of the uninterrupted run",
+                               observed_impl=dict(diff=diff, final=sorted(r["final"]), uninterrupted=sorted(r["uninterrupted"])),
+                               broken="resumed store differs from the uninterrupted run"))
+            continue
+        completed_before = {rid(p) for p in r["after_kill"] if "/" not in p}
+        expected_proc = sorted(i for i in range(n) if i not in completed_before)
+        got = sorted(rid(p) for p in r["processed_resume"])
+        if got != expected_proc:
+            rep.violation(resume_key(job, "processed"), dict(resume_job=job, expected_by_spec=expected_proc, observed_impl=got,
+                          broken="resume did not process exactly the inputs without a completed record"))
+        elif rmodel is not None and j in ridx:
+            m = rmodel[ridx[j]]
+            comp = lambda snap: sorted(rid(p) for p in snap if "/" not in p)  # noqa: E731
+            nc = lambda snap: sorted(rid(p) for p in snap if p.startswith("not_completed/"))  # noqa: E731
+            obs = [got, comp(r["final"]), nc(r["final"]), comp(r["uninterrupted"]), nc(r["uninterrupted"])]
+            if obs != [sorted(x) for x in m]:
+                disagreements.append(dict(key="resume", resume_job=job, observed_impl=obs, model_output=jsonable(m)))
+        if len(samples) < 9 and job["k"] == 2 and job["bad"] == [1]:
+            samples.append(dict(resume=job, processed_on_resume=r["processed_resume"], final_records=sorted(r["final"])))
+    return n_eval
 
 
 # ------------------------------------------------------------------ the check
@@ -273,153 +532,43 @@ def run(tier: str, seed: int) -> int:
     core.proof_coverage(rep, pr, "make theories/Properties/C19.vo && coqc gen/assum_C19.v (Print Assumptions)", [
         "POSIX rename/replace atomicity is the DEFINITION of the model's Replace/Rename operation (assumed, not verified)",
         "sys.addaudithook event stream (tempfile.mkdtemp, open, os.remove, os.rename, shutil.rmtree) is taken as the list of "
-        "file-system operations of a write; buffered writes and close are not audited and are not kill points",
+        "file-system operations of a write; buffered writes and close are not audited and are not kill points; what "
+        "zipfile.ZipFile does between two audited events (member + directory written on close) is one model step",
         "os._exit inside the audit hook stands for process death; durability (fsync), power loss and the kernel are outside the model",
+        "the except-clauses of atomic_write._get_fileobj / __exit__ are read from the source text with ast by the driver "
+        "(one try, one clause, 'rmtree; raise'; anything else aborts) and handed to the model as the handler set",
+        "executions of one scenario are forked from one interpreter that has imported cogent3 (a fresh process per execution, no re-import)",
     ])
-    disagreements = []
+    disagreements, samples, nontrivial = [], [], set()
+    dist = {k: 0 for k in ("plain:ok", "plain:fail", "gz:ok", "gz:fail", "zip:ok", "zip:fail")}
+    H = read_handlers()
     # ---- part A
-    scs, traces, jobs, res = part_a(rep, tier)
-    model = None
-    cases, index = model_cases_a(scs, traces, jobs)
-    try:
-        model = core.coq_eval(PROP, ["Model.AtomicWrite", "Model.AtomicWriteRun"], "run_case", cases,
-                              "bool * bool * Z * Z", shard=400)
-    except core.CheckError as e:
-        if not pr["problems"]:
-            raise
-        rep.notes.append("model not runnable: " + str(e)[:200])
-    news = {}
-    for sc in scs:
-        t = traces[sc_name(sc)]
-        news[sc_name(sc)] = norm(t["dest"], sc["dest"]) if (t["outcome"] == "ok") else None
-    n_eval = 0
-    nontrivial = set()
-    samples = []
-    for i, (mode, sc, info) in enumerate(index):
-        name = sc_name(sc)
-        new = news[name]
-        if mode == "trace":
-            t = traces[name]
-            codes = [c for c in event_codes(t["events"], None) if c != 0]
-            dc = dest_code(t["dest"], new, sc["dest"])
-            left = bool(t["leftovers"])
-            n_eval += 1
-            # oracle (property text): completion => exactly the new content, nothing else; formatting failure => old state, nothing else
-            if sc.get("fail"):
-                expect_dest = 1 if sc["old"] else 0
-                if t["outcome"] == "ok":
-                    raise core.CheckError(f"scenario {name} was meant to fail but succeeded")
-            else:
-                expect_dest = 2
-                if t["outcome"] != "ok":
-                    rep.violation(f"write-raised:{sc['writer']}", dict(scenario=sc, outcome=t["outcome"], broken="a plain write raised"))
-                    continue
-            if dc != expect_dest or left:
-                rep.violation(f"complete:{sc['writer']}:{'fail' if sc.get('fail') else 'ok'}:dest{dc}:left{int(left)}",
-                              dict(scenario=sc, mode="trace", expected_by_spec=dict(dest=expect_dest, leftovers=[]),
-                                   observed_impl=dict(dest=dc, dest_bytes=repr(t["dest"])[:80], leftovers=t["leftovers"], outcome=t["outcome"]),
-                                   events=codes, broken="after a completed / handled-failed write the sandbox is not {new | old} with nothing else"))
-            if model is not None:
-                m_codes, m_obs = model[i][0], model[i][1]
-                if codes != m_codes or [dc, left] != m_obs:
-                    disagreements.append(dict(key=f"trace:{sc['writer']}", scenario=sc, observed_impl=dict(events=codes, dest=dc, leftovers=left),
-                                              model_output=jsonable(model[i])))
-            if len(samples) < 2:
-                samples.append(dict(scenario=sc, audited_events=codes, dest_code=dc, leftovers=t["leftovers"]))
-            continue
-        r = res[i - len(scs)]
-        n_eval += 1
-        dc = dest_code(r["dest"], new, sc["dest"])
-        left = bool(r["leftovers"])
-        k = info["k"]
-        nontrivial.add((name, mode, k))
-        # ---- oracle
-        allowed = {1 if sc["old"] else 0} | ({2} if not sc.get("fail") else set())
-        codes_all = event_codes(traces[name]["events"], None)
-        faulted_is_rmtree = mode == "fault" and k < len(codes_all) and codes_all[k] in (7, 0)
-        bad_dest = dc not in allowed
-        bad_left = mode == "fault" and left and not faulted_is_rmtree
-        if bad_dest or bad_left:
-            what = "dest" if bad_dest else "leftover"
-            opcode = codes_all[k] if k < len(codes_all) else -1
-            rep.violation(f"{mode}:{what}:{sc['writer']}:{'fail' if sc.get('fail') else 'ok'}:before-op{opcode}:dest{dc}",
-                          dict(scenario=sc, mode=mode, k=k, audited_events=codes_all,
-                               expected_by_spec=dict(dest_in=sorted(allowed), leftovers="none after a handled failure"),
-                               observed_impl=dict(dest=dc, dest_bytes=repr(r["dest"])[:80], leftovers=r["leftovers"], outcome=r["outcome"]),
-                               model_output=jsonable(model[i]) if model is not None else None,
-                               broken="destination is neither the previous nor the new content" if bad_dest else
-                                      "a handled failure left temporary files behind"))
-        elif model is not None and not info["internal"] and [dc, left] != model[i]:
-            disagreements.append(dict(key=f"{mode}:{sc['writer']}", scenario=sc, mode=mode, k=k,
-                                      observed_impl=dict(dest=dc, leftovers=r["leftovers"]), model_output=jsonable(model[i])))
-        if len(samples) < 5 and mode == "kill" and k == 2:
-            samples.append(dict(scenario=sc, mode=mode, k=k, dest_code=dc, leftovers=r["leftovers"]))
-
+    scs, res = part_a(tier)
+    n_a, n_model = check_part_a(rep, scs, res, H, pr, disagreements, samples, nontrivial, dist)
     # ---- part B
-    ns = [4] if tier == "quick" else [3, 6]
-    rjobs = []
-    for n in ns:
-        for k in range(n + 1):
-            rjobs.append((n, k, [], []))
-        rjobs.append((n, rng.randrange(1, n), ["s01"], []))        # a failing record (NotCompleted) in the set
-        rjobs.append((n, rng.randrange(0, n - 1), [], ["s00"]))     # store already holds an earlier record
-        for k in sorted({0, 1, n // 2, n}):                          # user supplied id_from_source (input name != record id)
-            rjobs.append((n, k, [], [], True))
-    with cf.ThreadPoolExecutor(max_workers=min(core.NPROC, 8)) as ex:
-        rres = list(ex.map(lambda j: run_resume_case(*j), rjobs))
-    rcases = []
-    rjobs = [j if len(j) == 5 else (*j, False) for j in rjobs]
-    for (n, k, bad, pre, idfn), r in zip(rjobs, rres):
-        # inputs in the order the store lists them (= processing order of the uninterrupted run)
-        order = r["order"] if len(r["order"]) == n else list(range(n))
-        rcases.append(f"({zlist(order)}, {zlist(order[:len(pre)])}, {zlit(k)})")
-    rmodel = None
-    try:
-        rmodel = core.coq_eval(PROP, ["Model.AtomicWrite", "Model.AtomicWriteRun"], "run_resume", rcases, "list Z * list Z * Z", tag="r")
-    except core.CheckError as e:
-        if not pr["problems"]:
-            raise
-    for j, ((n, k, bad, pre, idfn), r) in enumerate(zip(rjobs, rres)):
-        n_eval += 1
-        nontrivial.add(("resume", n, k, tuple(bad), tuple(pre), idfn))
-        ids = lambda snap: sorted(int(p[1:3]) for p in snap if "/" not in p and p.endswith(".fasta"))  # noqa: E731
-        if r.get("resume_error"):
-            rep.violation(f"resume:raised:{'bad' if bad else 'ok'}:{'pre' if pre else 'fresh'}" + (":idfn" if idfn else ""),
-                          dict(n_inputs=n, kill_after=k, bad=bad, pre=pre, idfn=idfn, expected_by_spec="the resumed run completes",
-                               observed_impl=r["resume_error"], broken="re-running apply_to on the interrupted store raised"))
-            continue
-        if r["final"] != r["uninterrupted"]:
-            diff = sorted(set(r["final"].items()) ^ set(r["uninterrupted"].items()))[:4]
-            rep.violation(f"resume:store-differs:{'bad' if bad else 'ok'}:{'pre' if pre else 'fresh'}" + (":idfn" if idfn else ""),
-                          dict(n_inputs=n, kill_after=k, bad=bad, pre=pre, idfn=idfn, expected_by_spec="store of the uninterrupted run",
-                               observed_impl=dict(diff=diff, final=sorted(r["final"]), uninterrupted=sorted(r["uninterrupted"])),
-                               broken="resumed store differs from the uninterrupted run"))
-            continue
-        done_before = set(p for p in r["after_kill"] if "/" not in p)
-        expected_proc = sorted(f"s{i:02d}.fasta" for i in range(n) if f"s{i:02d}.fasta" not in done_before)
-        if sorted(r["processed_resume"]) != expected_proc:
-            rep.violation(f"resume:processed:{'bad' if bad else 'ok'}" + (":idfn" if idfn else ""), dict(n_inputs=n, kill_after=k, bad=bad, pre=pre, idfn=idfn,
-                          expected_by_spec=expected_proc, observed_impl=sorted(r["processed_resume"]),
-                          broken="resume did not process exactly the missing inputs"))
-        elif rmodel is not None and not bad:
-            m = rmodel[j]
-            obs = [sorted(int(p[1:3]) for p in r["processed_resume"]), ids(r["final"]), ids(r["uninterrupted"])]
-            if obs != [sorted(m[0]), sorted(m[1]), sorted(m[2])]:
-                disagreements.append(dict(key="resume", n_inputs=n, kill_after=k, pre=pre, observed_impl=obs, model_output=jsonable(m)))
-        if len(samples) < 7 and k == 2:
-            samples.append(dict(resume=dict(n_inputs=n, kill_after=k), processed_on_resume=r["processed_resume"], final_ids=ids(r["final"])))
-
+    jobs = resume_jobs(tier, rng)
+    rres = run_resume_jobs(jobs)
+    n_b = check_resume(rep, jobs, rres, pr, disagreements, samples, nontrivial)
+    n_eval = n_a + n_b
+    runs = [r for rr in res for r in rr]
     rep.coverage.update(
         evaluations=n_eval, distinct_nontrivial=len(nontrivial),
-        rule="one evaluation = one child-process execution of a writer (trace, kill before audited event k, or OSError at event k) or one "
-             "interrupted+resumed apply_to; every audited event of every scenario is used as a kill point and as a fault point (exhaustive "
-             "over events); non-trivial = kill/fault/resume runs (distinct (scenario, mode, k))",
+        rule="one evaluation = one forked-process execution of a writer (trace, kill before audited event k, or an exception of one class "
+             "raised by event k) or one interrupted+resumed apply_to; primary scenarios (and all scenarios in the thorough tier): every "
+             "audited event is a kill point and a fault point for each of 4 exception classes; secondary scenarios in quick: sampled "
+             "kill points, OSError at every event + one rotating class; non-trivial = kill/fault/resume runs (distinct (scenario, mode, k, class) / resume job)",
         samples=samples,
-        input_distribution=dict(scenarios=len(scs), kill_runs=sum(1 for j in jobs if j[1] == "kill"),
-                                fault_runs=sum(1 for j in jobs if j[1] == "fault"), resume_runs=len(rjobs),
-                                writers=sorted({s["writer"] for s in scs})),
+        input_distribution=dict(scenarios=len(scs), scenario_classes=dist,
+                                kill_runs=sum(1 for r in runs if r["mode"] == "kill"),
+                                fault_runs={c: sum(1 for r in runs if r["mode"] == "fault" and r["exc"] == c) for c in CLASSES},
+                                model_cases=n_model, resume_runs=len(jobs),
+                                resume_dimensions="k x every subset of failing inputs x first-run mode a/w x directory/sqlite x default/user id function",
+                                handlers_read_from_source=dict(_get_fileobj=H["enter_names"], __exit__=H["exit_names"],
+                                                               _close_rename_zip=H["zipcommit"]),
+                                writers=sorted({s["writer"] for s, _ in scs})),
         model_impl_disagreements=len(disagreements),
-        partial=["zip targets (in_zip) are not modelled or enumerated: ZipFile append is not atomic and is outside the theorem",
+        partial=["zip targets: kill points are the audited events; a death INSIDE ZipFile's own member/directory write is not enumerated; "
+                 "faults on zip targets are checked against the property-text oracle only (the nested handler structure is not modelled)",
                  "durability (fsync) and torn writes inside one os call are outside the model",
                  "kill points are audited os-level events; buffered writes/close are covered by the model only",
                  "a kill between a data-store member write and its md5 side file is not enumerated (resume is per completed record, as the property states)"],
@@ -433,20 +582,27 @@ def run(tier: str, seed: int) -> int:
 def replay(path: str) -> int:
     d = json.loads(open(path).read())
     if "scenario" in d:
-        sc, mode, k = d["scenario"], d.get("mode", "trace"), d.get("k", -1)
-        t = run_child(sc, "trace")
-        new = norm(t["dest"], sc["dest"]) if t["outcome"] == "ok" else None
-        r = t if mode == "trace" else run_child(sc, mode, k)
-        dc = dest_code(r["dest"], new, sc["dest"])
-        print("scenario", sc, mode, k, "-> dest code", dc, "leftovers", r["leftovers"], "outcome", r["outcome"])
-        allowed = {1 if sc["old"] else 0} | ({2} if not sc.get("fail") else set())
-        bad = dc not in allowed or (mode != "kill" and bool(r["leftovers"]))
+        sc, mode, k, exc = d["scenario"], d.get("mode", "trace"), d.get("k", -1), d.get("exc")
+        runs = run_server(sc, True, "quick", jobs=[["trace", -1, None]] + ([] if mode == "trace" else [[mode, k, exc]]))
+        t, r = runs[0], runs[-1]
+        new = new_ref(t, sc)
+        dc = dest_code(r["dest"], new, sc)
+        print("scenario", sc, mode, k, exc, "-> dest code", dc, "leftovers", r["leftovers"], "outcome", r["outcome"],
+              "archive members", zip_members(r["dest"]) if is_zip(sc) and r["dest"] else None)
+        completes = t["outcome"] == "ok"
+        if mode == "trace":
+            bad = dc != (2 if completes else (1 if sc["old"] else 0)) or bool(r["leftovers"])
+        else:
+            allowed = {1 if sc["old"] else 0} | ({2} if completes else set())
+            bad = dc not in allowed or (mode == "fault" and exc != "KeyboardInterrupt" and bool(r["leftovers"]))
+        print("expected by the property: dest in {previous, new}, no leftovers after a handled failure")
         print("REPRODUCED" if bad else "not reproduced")
         return 1 if bad else 0
-    if "n_inputs" in d:
-        r = run_resume_case(d["n_inputs"], d["kill_after"], d.get("bad", []), d.get("pre", []), d.get("idfn", False))
-        bad = r["final"] != r["uninterrupted"]
-        print("final == uninterrupted:", not bad, "processed on resume:", r["processed_resume"])
+    if "resume_job" in d:
+        r = run_resume_jobs([d["resume_job"]])[0]
+        bad = bool(r.get("resume_error")) or r["final"] != r["uninterrupted"]
+        print("resumed run error:", r.get("resume_error"))
+        print("final == uninterrupted:", r["final"] == r["uninterrupted"], "processed on resume:", r["processed_resume"])
         print("REPRODUCED" if bad else "not reproduced")
         return 1 if bad else 0
     print("replay names a broken obligation, not an input:", d.get("broken"))
